@@ -247,6 +247,7 @@ type witness struct {
 	Ins   []term      `json:"ins,omitempty"`
 	Seed  int64       `json:"seed"`
 	Mem   int         `json:"mem"`
+	Mems  []int       `json:"mems,omitempty"` // crash witness: all the runs of the case (any of them may have crashed)
 	ZNG   bool        `json:"zng,omitempty"` // input read through zngio (buffers poisoned on release)
 	Input []fuserItem `json:"input,omitempty"`
 	// informational
@@ -388,7 +389,7 @@ func typeList(types []zed.Type) string {
 // checkCase replays one TLC case on the real code and returns its report.
 // wantSpills is the number of runs of this case in which the spec says the
 // Fuser creates a spill file.
-func (e *env) checkCase(tc *typeCase, idx int, seed int64, mems []int) (r *report, wantSpills int64, err error) {
+func (e *env) checkCase(tc *typeCase, idx int, seed int64, mems []int, viaZNG bool) (r *report, wantSpills int64, err error) {
 	r = &report{}
 	zctx := zed.NewContext()
 	var inTypes []zed.Type
@@ -407,8 +408,7 @@ func (e *env) checkCase(tc *typeCase, idx int, seed int64, mems []int) (r *repor
 		}
 	}
 	var first *observation
-	for mi, mem := range mems {
-		viaZNG := (idx+mi)%2 == 1
+	for _, mem := range mems {
 		o, err := e.observe(zctx, ins, mem, viaZNG)
 		w := witness{Kind: "types", Ins: tc.Ins, Seed: seed, Mem: mem, ZNG: viaZNG}
 		if err != nil {
@@ -431,7 +431,7 @@ func (e *env) checkCase(tc *typeCase, idx int, seed int64, mems []int) (r *repor
 		} else if mem <= 1 {
 			nontrivial = false
 		}
-		r.eval(fmt.Sprintf("types|%s|%d|%d", tc.key(), seed, mem), nontrivial)
+		r.eval(fmt.Sprintf("types|%s|%d|%d|%v", tc.key(), seed, mem, viaZNG), nontrivial)
 		before := r.nviol
 		e.oracle(r, ins, inTypes, o, w)
 		e.bind(r, zctx, tc, ins, o, r.nviol-before)
@@ -514,7 +514,6 @@ func run(c *core.Ctx) error {
 	if !verif.Enabled {
 		return errors.New("harness built without -tags verif")
 	}
-	verif.PoisonFreed.Store(true)
 	verif.SetHook(func(site string, args ...any) {
 		if site == "fuse.Fuser.spill" {
 			e.spills.Add(1)
@@ -559,55 +558,26 @@ func run(c *core.Ctx) error {
 	c.Logf("TLC exported %d enumerated + %d generated type cases (%v on a defect path) and %d Fuser cases", len(cases)-nrand, nrand, tainted, len(spillCases))
 
 	startProfile()
-	// Replay the type cases on several goroutines; flush the reports in case order.
-	type caseResult struct {
-		r          *report
-		wantSpills int64
-		err        error
-	}
-	results := make([]caseResult, len(cases))
-	next := atomic.Int64{}
-	var wg sync.WaitGroup
-	spillsBefore := e.spills.Load()
-	for w := 0; w < 8; w++ {
-		wg.Add(1)
-		go func() {
-			defer wg.Done()
-			for {
-				i := int(next.Add(1)) - 1
-				if i >= len(cases) {
-					return
-				}
-				mems := []int{e.defMem}
-				// quick: every case with the default limit, one in three also through the spill file
-				if !c.Quick() || (int64(i)+c.Seed)%3 == 0 {
-					mems = append(mems, 1)
-				}
-				res := &results[i]
-				func() {
-					defer func() {
-						if r := recover(); r != nil {
-							res.err = fmt.Errorf("harness panic: %v", r)
-						}
-					}()
-					res.r, res.wantSpills, res.err = e.checkCase(&cases[i], i, c.Seed*1000003+int64(i), mems)
-				}()
-			}
-		}()
-	}
-	wg.Wait()
-	var wantSpills int64
-	for i := range results {
-		if results[i].err != nil {
-			return fmt.Errorf("case %s: %w", cases[i].key(), results[i].err)
+	// Replay the type cases in child processes (a panic in one of the operator's own goroutines
+	// cannot be recovered; a child that dies is a crash of the code under test on that case).
+	jobs := make([]childCase, len(cases))
+	nzng := 0
+	for i := range cases {
+		j := childCase{Idx: i, TC: cases[i], Seed: caseSeed(c.Seed, i), Mems: []int{e.defMem}}
+		// thorough: every case also through the spill file and, every other one, through poisoned ZNG input;
+		// quick: one in three / one in four
+		if !c.Quick() || (int64(i)+c.Seed)%3 == 0 {
+			j.Mems = append(j.Mems, 1)
 		}
-		results[i].r.flush(c)
-		wantSpills += results[i].wantSpills
+		if (!c.Quick() && (int64(i)+c.Seed)%2 == 1) || (int64(i)+c.Seed)%4 == 1 {
+			j.ZNG = true
+			nzng++
+		}
+		jobs[i] = j
 	}
-	gotSpills := e.spills.Load() - spillsBefore
-	c.Add("spilled_runs", gotSpills)
-	if gotSpills != wantSpills {
-		c.Drift("spill: the spec (SpillIndex) says %d of the runs with MemMaxBytes=1 create a spill file, the hook fuse.Fuser.spill fired %d times", wantSpills, gotSpills)
+	c.Set("zng_poisoned_input_cases", nzng)
+	if err := e.childStage(jobs, 8); err != nil {
+		return err
 	}
 	c.Add("traces_validated_against_impl", int64(len(cases)))
 	c.Logf("type cases replayed: %d evaluations, %d predictions confirmed, %d drift", c.Count("evaluations"), c.Count("predictions_confirmed"), c.Count("drift_count"))
@@ -741,8 +711,16 @@ func (e *env) replay() error {
 			}
 			inTypes = append(inTypes, t)
 		}
+		if w.ZNG || os.Getenv("C20_REPLAY_INPROCESS") == "" {
+			// in a child process, so that a crash of the code under test is reported as such
+			job := childCase{Idx: 0, TC: typeCase{Ins: w.Ins}, Seed: w.Seed, Mems: []int{w.Mem}, ZNGOnly: w.ZNG, ZNG: w.ZNG, NoBind: true}
+			if len(w.Mems) > 0 {
+				job.Mems, job.ZNGOnly = w.Mems, false
+			}
+			return e.childStage([]childCase{job}, 1)
+		}
 		ins := instantiate(inTypes, w.Seed)
-		o, err := e.observe(zctx, ins, w.Mem, w.ZNG)
+		o, err := e.observe(zctx, ins, w.Mem, false)
 		if err != nil {
 			e.c.Violate("query-error", err.Error(), w)
 			return nil
@@ -755,4 +733,12 @@ func (e *env) replay() error {
 	return nil
 }
 
-func main() { core.Main("C20", "model_checking", run) }
+func caseSeed(seed int64, i int) int64 { return seed*1000003 + int64(i) }
+
+func main() {
+	if os.Getenv("C20_CHILD_IN") != "" {
+		childMain()
+		return
+	}
+	core.Main("C20", "model_checking", run)
+}
